@@ -16,11 +16,14 @@ import tempfile
 from lib import exn_code
 
 GEN = ["RecfmParams"]
-RULE = ("record lists written as F (lrecl 1..65532), V, VB (random legal blockings incl. blocks of exactly 65535 bytes) and N; "
+RULE = ("record lists written as F (lrecl 1..65536), V, VB (random legal blockings incl. blocks of exactly 65535 bytes) and N; "
         "lengths concentrated on 1, 2, 16383-16385, 20000, 32756-32768 (N: straddling the 32768-byte refill boundary), 65531 and random; "
-        "both io.BufferedReader and io.BytesIO sources; raw stream = short random/corrupt images (model agreement only); "
-        "thorough adds all pairs of 19 boundary lengths and all triples of 8 for N. "
-        "Non-trivial = at least one record (branch not in 0,10,20,30); distinct = distinct case lines.")
+        "both io.BufferedReader and io.BytesIO sources; thorough adds all ordered pairs of 19 boundary lengths and all triples of 8 for N. "
+        "Branch = 10*format (0 F, 1 V, 2 VB, 3 N) + class: 0 no records, 1/2 in the domain (N: 2 = file longer than the buffer; VB: 2 = some block "
+        "holds several records; F: 2 = lrecl + 4 does not fit a length word), "
+        "3 / 9 = outside the property's domain (illegal record list / raw or corrupt image) and the implementation equals the model, "
+        "4 / 8 (F also 5) = outside the domain and the implementation differs from the model (informational, never an alarm: "
+        "the property says nothing there). Non-trivial = at least one record; distinct = distinct case lines.")
 TRIVIAL_BRANCHES = [0, 10, 20, 30]
 ASSUMPTIONS = [
     "source.read(n) on a regular file or BytesIO returns exactly min(n, remaining) bytes (short reads of pipes/sockets are outside the property)",
